@@ -79,7 +79,6 @@ func outLast() any                               { return nil }
 //@ func (UnaryOperator).String
 //@ props C05
 //@ pure
-//@ trusted "stringer-generated table lookup: the result is never the empty string"
 //@ ensures len(r0) >= 1
 
 // IsBoolNode reports whether n is a node that denotes a predicate: a
@@ -104,49 +103,137 @@ func IsBoolNode(n Node) bool {
 
 // ---------------------------------------------------------------------------
 // wfAST: structural facts about parser-produced trees that the executor
-// relies on. They are stated as (trusted) postconditions of the getters; the
-// parser side (constructors + grammar actions + validateNode) establishes
-// them. Listed as an assumption in every evidence file that uses them.
+// relies on.
+//
+// The facts that concern one node alone are OBJECT INVARIANTS: every function
+// that allocates the node type or writes one of the fields named here (the
+// constructors, found mechanically on every run) must establish them before
+// it returns or calls out (obligations `objinv:*`); code that only reads may
+// then rely on them, and the getters' postconditions below are proved from
+// their bodies. The constructors' preconditions, in turn, are discharged at
+// every call site in the grammar actions.
+//
+// The facts that relate a node to its operands (a connective's operands are
+// predicates that end their chain) cannot be object invariants - `next` of the
+// operand is written later by LinkNodes - and stay assumptions, stated as
+// `assumes` clauses on the getter concerned and listed in every evidence file
+// that uses them.
+
+//@ objinv AST [C05 C04] root-present: present(self.root)
+//@ objinv ConstNode [C05 C04] kind-known: self.kind >= ConstRoot && self.kind <= ConstNull
+//@ objinv MethodNode [C05 C04] name-known: self.name >= MethodAbs && self.name <= MethodString
+//@ objinv BinaryNode [C05 C04] op-known: self.op >= BinaryAnd && self.op <= BinaryDecimal
+//@ objinv BinaryNode [C05 C04] left-operand: self.op != BinaryDecimal ==> present(self.left)
+//@ objinv BinaryNode [C05 C04] right-operand: self.op != BinaryDecimal && self.op != BinarySubscript ==> present(self.right)
+//@ objinv UnaryNode [C05 C04] op-known: self.op >= UnaryExists && self.op <= UnaryTimestampTZ
+//@ objinv UnaryNode [C05 C04] operand: self.op < UnaryDateTime ==> present(self.operand)
+//@ objinv RegexNode [C05 C04] operand: present(self.operand)
+// the embedded parts of the five literal-like nodes are there
+//@ objinv StringNode [C05 C04 C02] part: self.quotedString != nil
+//@ objinv VariableNode [C05 C04 C02] part: self.quotedString != nil
+//@ objinv KeyNode [C05 C04 C02] part: self.quotedString != nil
+//@ objinv NumericNode [C05 C04 C02] part: self.numberNode != nil
+//@ objinv IntegerNode [C05 C04 C02] part: self.numberNode != nil
+// a chain link is nil or a node that is there (never a typed nil pointer), so
+// walking a chain with Next() until nil never dereferences nil
+//@ objinv ConstNode [C05 C04] next-wf: self.next == nil || present(self.next)
+//@ objinv MethodNode [C05 C04] next-wf: self.next == nil || present(self.next)
+//@ objinv quotedString [C05 C04] next-wf: self.next == nil || present(self.next)
+//@ objinv numberNode [C05 C04] next-wf: self.next == nil || present(self.next)
+//@ objinv BinaryNode [C05 C04] next-wf: self.next == nil || present(self.next)
+//@ objinv UnaryNode [C05 C04] next-wf: self.next == nil || present(self.next)
+//@ objinv RegexNode [C05 C04] next-wf: self.next == nil || present(self.next)
+//@ objinv ArrayIndexNode [C05 C04] next-wf: self.next == nil || present(self.next)
+//@ objinv AnyNode [C05 C04] next-wf: self.next == nil || present(self.next)
+
+//@ func (*ConstNode).setNext
+//@ props C04
+//@ requires [C04] link-wf: next == nil || present(next)
+//@ modifies n.next
+//@ ensures [C04 C03] linked: n.next == next
+
+//@ func (*MethodNode).setNext
+//@ props C04
+//@ requires [C04] link-wf: next == nil || present(next)
+//@ modifies n.next
+//@ ensures [C04 C03] linked: n.next == next
+
+//@ func (*quotedString).setNext
+//@ props C04
+//@ requires [C04] link-wf: next == nil || present(next)
+//@ modifies n.next
+//@ ensures [C04 C03] linked: n.next == next
+
+//@ func (*numberNode).setNext
+//@ props C04
+//@ requires [C04] link-wf: next == nil || present(next)
+//@ modifies n.next
+//@ ensures [C04 C03] linked: n.next == next
+
+//@ func (*BinaryNode).setNext
+//@ props C04
+//@ requires [C04] link-wf: next == nil || present(next)
+//@ modifies n.next
+//@ ensures [C04 C03] linked: n.next == next
+
+//@ func (*UnaryNode).setNext
+//@ props C04
+//@ requires [C04] link-wf: next == nil || present(next)
+//@ modifies n.next
+//@ ensures [C04 C03] linked: n.next == next
+
+//@ func (*RegexNode).setNext
+//@ props C04
+//@ requires [C04] link-wf: next == nil || present(next)
+//@ modifies n.next
+//@ ensures [C04 C03] linked: n.next == next
+
+//@ func (*ArrayIndexNode).setNext
+//@ props C04
+//@ requires [C04] link-wf: next == nil || present(next)
+//@ modifies n.next
+//@ ensures [C04 C03] linked: n.next == next
+
+//@ func (*AnyNode).setNext
+//@ props C04
+//@ requires [C04] link-wf: next == nil || present(next)
+//@ modifies n.next
+//@ ensures [C04 C03] linked: n.next == next
 
 //@ func (*AST).Root
 //@ props C05
 //@ pure
-//@ trusted "wfAST: New() is only called by the parser with a non-nil root"
 //@ ensures link: r0 == a.root
 //@ ensures r0 != nil
 
 //@ func (*ConstNode).Const
 //@ props C05
 //@ pure
-//@ trusted "wfAST: constant kinds come from the grammar actions"
 //@ ensures link: r0 == n.kind
 //@ ensures r0 >= ConstRoot && r0 <= ConstNull
 
 //@ func (*MethodNode).Name
 //@ props C05
 //@ pure
-//@ trusted "wfAST: method names come from the grammar actions"
 //@ ensures link: r0 == n.name
 //@ ensures r0 >= MethodAbs && r0 <= MethodString
 
 //@ func (*BinaryNode).Operator
 //@ props C05
 //@ pure
-//@ trusted "wfAST: operators come from the grammar actions"
 //@ ensures link: r0 == n.op
 //@ ensures r0 >= BinaryAnd && r0 <= BinaryDecimal
 
 //@ func (*UnaryNode).Operator
 //@ props C05
 //@ pure
-//@ trusted "wfAST: operators come from the grammar actions"
 //@ ensures link: r0 == n.op
 //@ ensures r0 >= UnaryExists && r0 <= UnaryTimestampTZ
 
 //@ func (*BinaryNode).Left
 //@ props C05
 //@ pure
-//@ trusted "wfAST: binary operators other than .decimal() have a left operand"
+//@ assumes wfAST-connective-operands-are-predicates: (n.op == BinaryAnd || n.op == BinaryOr) ==> n.left.Next() == nil && IsBoolNode(n.left)
 //@ ensures link: r0 == n.left
 //@ ensures n.Operator() != BinaryDecimal ==> r0 != nil
 //@ ensures (n.Operator() == BinaryAnd || n.Operator() == BinaryOr) ==> r0.Next() == nil && IsBoolNode(r0)
@@ -154,7 +241,7 @@ func IsBoolNode(n Node) bool {
 //@ func (*BinaryNode).Right
 //@ props C05
 //@ pure
-//@ trusted "wfAST: binary operators other than subscripts and .decimal() have a right operand"
+//@ assumes wfAST-connective-operands-are-predicates: (n.op == BinaryAnd || n.op == BinaryOr) ==> n.right.Next() == nil && IsBoolNode(n.right)
 //@ ensures link: r0 == n.right
 //@ ensures n.Operator() != BinaryDecimal && n.Operator() != BinarySubscript ==> r0 != nil
 //@ ensures (n.Operator() == BinaryAnd || n.Operator() == BinaryOr) ==> r0.Next() == nil && IsBoolNode(r0)
@@ -162,7 +249,7 @@ func IsBoolNode(n Node) bool {
 //@ func (*UnaryNode).Operand
 //@ props C05
 //@ pure
-//@ trusted "wfAST: unary operators other than the datetime methods have an operand"
+//@ assumes wfAST-negated-operands-are-predicates: (n.op == UnaryNot || n.op == UnaryIsUnknown || n.op == UnaryFilter) ==> n.operand.Next() == nil && IsBoolNode(n.operand)
 //@ ensures link: r0 == n.operand
 //@ ensures n.Operator() < UnaryDateTime ==> r0 != nil
 //@ ensures (n.Operator() == UnaryNot || n.Operator() == UnaryIsUnknown || n.Operator() == UnaryFilter) ==> r0.Next() == nil && IsBoolNode(r0)
@@ -170,18 +257,17 @@ func IsBoolNode(n Node) bool {
 //@ func (*RegexNode).Operand
 //@ props C05
 //@ pure
-//@ trusted "wfAST: like_regex has an operand"
 //@ ensures link: r0 == n.operand
 //@ ensures r0 != nil
 
 //@ func (*ArrayIndexNode).Subscripts
 //@ props C05 C14
 //@ pure
-//@ trusted "wfAST: subscripts are BinarySubscript nodes"
+//@ assumes wfAST-subscripts-are-subscript-nodes: forall(func(i int) bool { return implies(0 <= i && i < len(n.subscripts), is[*BinaryNode](n.subscripts[i]) && as[*BinaryNode](n.subscripts[i]).Operator() == BinarySubscript) })
 //@ ensures link: sameSlice(r0, n.subscripts)
 //@ ensures forall(func(i int) bool { return implies(0 <= i && i < len(r0), is[*BinaryNode](r0[i]) && as[*BinaryNode](r0[i]).Operator() == BinarySubscript) })
 
-//@ sweep safety C04 exclude=_string.go,String,LinkNodes
+//@ sweep safety C04 exclude=Node).String
 
 // ---------------------------------------------------------------------------
 // printer (C02): decisions that the canonical text depends on. outFirst /
@@ -317,19 +403,16 @@ func IsBoolNode(n Node) bool {
 //@ func (BinaryOperator).String
 //@ props C05 C02
 //@ pure
-//@ trusted "stringer-generated table lookup: the result is never the empty string"
 //@ ensures len(r0) >= 1
 
 //@ func (Constant).String
 //@ props C05 C02
 //@ pure
-//@ trusted "stringer-generated table lookup: the result is never the empty string"
 //@ ensures len(r0) >= 1
 
 //@ func (MethodName).String
 //@ props C05 C02
 //@ pure
-//@ trusted "stringer-generated table lookup: the result is never the empty string"
 //@ ensures len(r0) >= 1
 
 // ---------------------------------------------------------------------------
@@ -344,7 +427,6 @@ func IsBoolNode(n Node) bool {
 //@ assumes tree-unary: is[*UnaryNode](node) ==> as[*UnaryNode](node).operand == nil || as[*UnaryNode](node).operand != as[*UnaryNode](node).next
 //@ assumes tree-regex: is[*RegexNode](node) ==> as[*RegexNode](node).operand == nil || as[*RegexNode](node).operand != as[*RegexNode](node).next
 //@ assumes tree-binary: is[*BinaryNode](node) ==> (as[*BinaryNode](node).left == nil || as[*BinaryNode](node).left != as[*BinaryNode](node).next) && (as[*BinaryNode](node).right == nil || as[*BinaryNode](node).right != as[*BinaryNode](node).next)
-//@ assumes parts: (is[*StringNode](node) ==> as[*StringNode](node).quotedString != nil) && (is[*VariableNode](node) ==> as[*VariableNode](node).quotedString != nil) && (is[*KeyNode](node) ==> as[*KeyNode](node).quotedString != nil) && (is[*NumericNode](node) ==> as[*NumericNode](node).numberNode != nil) && (is[*IntegerNode](node) ==> as[*IntegerNode](node).numberNode != nil)
 //@ ensures [C04] current-outside-filter: is[*ConstNode](node) && as[*ConstNode](node).kind == ConstCurrent && depth <= 0 ==> r0 != nil
 //@ ensures [C04] last-outside-subscript: is[*ConstNode](node) && as[*ConstNode](node).kind == ConstLast && !inSubscript ==> r0 != nil
 //@ ensures [C04] nil-ok: node == nil ==> r0 == nil
@@ -373,6 +455,7 @@ func IsBoolNode(n Node) bool {
 //@ func New
 //@ props C04
 //@ propagates errors
+//@ requires [C04 C05] root-present: present(n)
 //@ ensures [C04] value-iff-ok: (r0 != nil) == (r1 == nil)
 //@ ensures [C04] fields: r1 == nil ==> r0.root == n && r0.lax == lax && r0.pred == pred && fresh(r0)
 
@@ -465,7 +548,8 @@ func IsBoolNode(n Node) bool {
 
 //@ func LinkNodes
 //@ props C03 C04
-//@ trusted "appends nodes[1:] to the end of the chain that starts at nodes[0] and returns nodes[0]; the body (a walk along an existing chain) is not verified, its preconditions are checked at every call site under contract"
+//@ loop 1 invariant [C04] end-present: present(end)
+//@ loop 2 invariant [C04] end-present: present(end)
 //@ requires [C04] some: len(nodes) >= 1
 //@ requires [C04] all-present: forall(func(i int) bool { return implies(0 <= i && i < len(nodes), present(nodes[i])) })
 //@ ensures [C03 C04] head: r0 == nodes[0] && present(r0)
@@ -490,18 +574,15 @@ func IsBoolNode(n Node) bool {
 //@ func (*IntegerNode).Int
 //@ pure
 //@ props C03 C01
-//@ assumes part: n.numberNode != nil
 
 //@ func (*NumericNode).Float
 //@ pure
 //@ props C03 C01
-//@ assumes part: n.numberNode != nil
 
 //@ func NewUnaryOrNumber
 //@ props C03 C04
 //@ requires node != nil
 //@ requires sign-only: op == UnaryPlus || op == UnaryMinus
-//@ assumes parts: (is[*NumericNode](node) ==> as[*NumericNode](node).numberNode != nil) && (is[*IntegerNode](node) ==> as[*IntegerNode](node).numberNode != nil)
 //@ ensures [C03 C04] some-node: present(r0)
 //@ ensures [C03] minus-flips-the-literal-sign: op == UnaryMinus && node.Next() == nil && is[*IntegerNode](node) && isInt(negated(as[*IntegerNode](node).numberNode.literal)) ==> is[*IntegerNode](r0) && fresh(as[*IntegerNode](r0)) && as[*IntegerNode](r0).numberNode.literal == negated(as[*IntegerNode](node).numberNode.literal)
 //@ ensures [C03 C04] minus-keeps-what-it-cannot-fold: op == UnaryMinus && node.Next() == nil && is[*IntegerNode](node) && !isInt(negated(as[*IntegerNode](node).numberNode.literal)) ==> is[*UnaryNode](r0) && as[*UnaryNode](r0).op == op && as[*UnaryNode](r0).operand == node
